@@ -80,6 +80,10 @@ pub enum Op {
     GetMax(Vec<u8>),
     /// the next operation is allowed to return an error (reported as `R experr`)
     ExpectErr,
+    /// point read at an explicit snapshot seqno
+    GetAt(Vec<u8>, u64),
+    /// scan at an explicit snapshot seqno
+    RangeAt(Bnd, Bnd, String, u64),
 }
 
 fn snap_text(s: &Option<u32>) -> String {
@@ -109,6 +113,8 @@ impl Op {
                 | Op::Last(..)
                 | Op::IsEmpty(..)
                 | Op::GetMax(..)
+                | Op::GetAt(..)
+                | Op::RangeAt(..)
         )
     }
 
@@ -146,6 +152,8 @@ impl Op {
             }
             Op::Reopen => "reopen".into(),
             Op::ExpectErr => "expecterr".into(),
+            Op::GetAt(k, s) => format!("getat {} {s}", hex(k)),
+            Op::RangeAt(lo, hi, p, s) => format!("rangeat {} {} {p} {s}", lo.text(), hi.text()),
             Op::Clock(n) => format!("clock {n}"),
             Op::Verdict(k, v) => format!("verdict {} {v}", hex(k)),
             Op::Snap(n) => format!("snap {n}"),
@@ -212,6 +220,8 @@ impl Op {
             ),
             "reopen" => Op::Reopen,
             "expecterr" => Op::ExpectErr,
+            "getat" => Op::GetAt(unhex(t[1]), t[2].parse().expect("S")),
+            "rangeat" => Op::RangeAt(Bnd::parse(t[1]), Bnd::parse(t[2]), t[3].to_string(), t[4].parse().expect("S")),
             "clock" => Op::Clock(t[1].parse().expect("clock")),
             "verdict" => Op::Verdict(unhex(t[1]), t[2].to_string()),
             "snap" => Op::Snap(t[1].parse().expect("snap")),
